@@ -15,6 +15,9 @@
 //!                     once it has returned) and prints `poll=Pending` otherwise — the very test
 //!                     `StatusFuture::poll` makes.
 //!   `q status`        `closed=<0|1> completed=<0|1> error=<0|1>` (kind status; `na` otherwise)
+//!   `drop`            the future / stream under test is dropped (its receiver goes away while the
+//!                     observer still sits in the source subject): `dropped`; later `poll`s print
+//!                     `na`.  Kind status: nothing to drop (the harness keeps the `Arc<CompleteStatus>`).
 //!
 //! kind `statustake`: `<src>.complete_status()` then a *cutter* that can finish the
 //! downstream before the source terminates, then the probe.
@@ -152,6 +155,8 @@ enum Conv {
   CollectFuture(Pin<Box<dyn Future<Output = FutOut<Vec<Val>>>>>),
   Stream(Pin<Box<dyn Stream<Item = Result<Val, i64>>>>),
   Status(Arc<CompleteStatus>),
+  /// event `drop` has consumed the future / stream
+  Dropped,
 }
 
 /// kind `statusrace`: `CompleteStatus::wait_for_end` in a helper thread whose
@@ -618,8 +623,16 @@ pub fn run(case: &Case, out: &mut Out) {
               "poll=Pending".to_string()
             }
           }
+          Conv::Dropped => "na".to_string(),
         };
         out.emit(k, line);
+      }
+      "drop" => {
+        if !matches!(conv, Conv::Status(_)) {
+          // the old value (the boxed future / stream with its receiver) is dropped here
+          conv = Conv::Dropped;
+        }
+        out.emit(k, "dropped".to_string());
       }
       "q" => match &conv {
         Conv::Status(st) => out.emit(
